@@ -37,13 +37,18 @@ def main() -> None:
         inp = {"physical": phys, "frame_size": fs, "logical": logical, "via": via, "statements": stmts}
         net.case(inp)
         pulled = [0]
+        pending_at_pull = []
+        holder = {}
         def source():
             for s in stmts:
                 pulled[0] += 1
+                if holder.get("stream") is not None and pulled[0] >= 2:
+                    pending_at_pull.append(len(holder["stream"].flow))
                 yield stmt_to_generic(s)
         opts = make_options(phys, (32, 16, 16), logical=logical, frame_size=fs)
         if via == "stream_frames":
             stream = make_stream(phys, opts)
+            holder["stream"] = stream
             frames_it = stream_frames(stream, source())
         else:
             stream = None
@@ -57,6 +62,8 @@ def main() -> None:
             bad = f"{type(e).__name__}: {e}"
         if bad:
             continue
+        if any(n >= fs for n in pending_at_pull):
+            net.fail("pending-rows-at-pull", f"the serializer asked for more input with {max(pending_at_pull)} rows pending although frame_size is {fs}", inp, pending_at_pull)
         # every frame except the last must have been produced by reaching the bound right after the statement pulled last
         total_rows = sum(r for _, r in log)
         rows_before = 0
@@ -76,11 +83,14 @@ def main() -> None:
     for it in range(60 if net.quick else 600):
         if not net.time_left():
             break
-        phys = rng.choice([1, 2])
-        stmts = gen_statements(rng, phys, rng.randrange(3, 9), quoted_ok=False)
-        data = serialize_generic(stmts, phys, make_options(phys, (32, 16, 16), logical=phys, frame_size=rng.choice([1, 2, 4])))
+        phys = rng.choice([1, 2, 3])
+        stmts = gen_statements(rng, 1 if phys == 1 else 2, rng.randrange(3, 9), quoted_ok=False)
+        if phys == 3:      # long runs of one graph, so that frame cuts fall inside a graph
+            g = stmts[0][3]
+            stmts = [s[:3] + (g,) for s in stmts]
+        data = serialize_generic(stmts, phys, make_options(phys, (32, 16, 16), logical={1: 1, 2: 2, 3: 2}[phys], frame_size=rng.choice([1, 2, 4])))
         frames = wire.split_delimited(data)
-        want_all = [("triple" if phys == 1 else "quad", *s) for s in stmts]
+        want_all = [("triple" if phys == 1 else "quad", *s) for s in stmts]  # noqa: F841
         offs = []
         pos = 0
         for f in frames:
@@ -106,4 +116,5 @@ def main() -> None:
                          {"bytes_hex": data.hex(), "delivered": cut}, got, want)
     net.finish("bounded", "flat serialisation of 3..11 statements, frame sizes {1,2,3,5}, logical type given or inferred, both entry points; parse with a source stalling after each frame boundary",
                "write cases = (config, statement list) with pull counter; parse cases = (stream, stall offset)")
-main()
+if __name__ == "__main__":
+    main()
